@@ -168,6 +168,15 @@ func (h *H) evalFault(c *core.Case, s *Scenario, dir, world string, r *run) {
 		s.OutRel = "blocker/sub/mock_gen.go"
 		outAbs = filepath.Join(root, s.OutRel)
 		mustFail = true
+	case "outisemptydir":
+		// an existing EMPTY directory at -out: the write fails (EISDIR) and the directory must stay
+		_ = os.MkdirAll(outAbs, 0o755)
+		if s.Rm {
+			// -rm removes an empty directory: then the run is an ordinary successful generation
+			mustFail = false
+		} else {
+			mustFail = true
+		}
 	case "outisdir", "rmfail":
 		_ = os.MkdirAll(outAbs, 0o755)
 		_ = os.WriteFile(filepath.Join(outAbs, "keep.txt"), []byte("precious\n"), 0o644)
@@ -273,6 +282,13 @@ func (h *H) evalFault(c *core.Case, s *Scenario, dir, world string, r *run) {
 			}
 			if outRelDir != "" && ch[1:] == outRelDir {
 				continue // judged above under C17
+			}
+			if outRelDir != "" && allowedChange(ch, outRelDir) && (!goodOK || s.Fault == "badarg" || sourceBroken || s.Fault == "srcmissing" || s.Fault == "srcempty") {
+				// the failure lies before anything could be written (the same arguments fail in stdout mode as well):
+				// "failures write nothing" - a directory created for an output that never existed is something written
+				r.bad("C17", "failure-before-write-creates-nothing", "moq failed while loading/looking up (%s) and still created %s", res.StderrFirstLine(), ch[1:])
+				r.note("parent_dirs_created_on_failed_run")
+				continue
 			}
 			if outRelDir != "" && allowedChange(ch, outRelDir) {
 				// C18's statement exempts "directories leading to" -out without restricting that to successful
